@@ -4,7 +4,7 @@ From Coq Require Import List NArith Bool.
 From Coq Require Import ExtrOcamlBasic.
 From Rustun Require Import Codec.Filter Codec.DecodeLoop Codec.FilterCase.
 From Rustun Require Import Base.Tlv Agent.Reasm Agent.ReasmDrive Agent.ReasmRs.
-From Rustun Require Import Agent.Rto Agent.Model Agent.Monitors Agent.AbsGlue.
+From Rustun Require Import Agent.Rto Agent.Model Agent.Monitors Agent.AbsGlue Agent.F32 Agent.RttExact.
 From Rustun Require Import Codec.Wire Codec.WireMon Codec.EncodeMsg.
 From Rustun Require Import Agent.ArcHeap Proofs.ArcHeapProofs.
 From Rustun Require Import Codec.AttrValue Codec.WireFull Codec.Message Codec.Keys Codec.Ignored.
@@ -20,4 +20,5 @@ Extraction "model.ml"
   WireFull.dec_ok_full WireFull.typed_attrs
   Message.encode_typed Message.decode_typed Message.monitor_C01 Message.ctor_of Message.quoted_roundtrips Message.ctor_class Message.dangling_backslash Keys.st_key Keys.lt_key
   Ignored.monitor_C02ign Ignored.diff_bits
-  AbsGlue.abs_packet AbsGlue.nonce_features AbsGlue.nonce_str.
+  AbsGlue.abs_packet AbsGlue.nonce_features AbsGlue.nonce_str
+  RttExact.est0 RttExact.est_step RttExact.est_rto_for_send.
